@@ -56,7 +56,8 @@ SLOTS = ('proid.app#0000000001', 'proid.app#0000000002',
          'proid.app#0000000003')
 
 # times (seconds); ZooKeeper stamps are ms
-T_PLACE = vclock.BASE + 1000.0          # ctime of current placement nodes
+T_PLACE = vclock.BASE + 1000.7          # ctime of current placement nodes
+                                        # (fractional: ZooKeeper stamps are ms)
 T_SYNC = vclock.BASE + 2000.0           # when the sync under test runs
 T_RESYNC = vclock.BASE + 3000.0         # when the recovery sync runs
 
@@ -89,7 +90,8 @@ def manifest(slot_idx, variant):
 
 def placement_data(slot_idx, variant):
     if variant == 2:
-        return {'identity': slot_idx + 3,
+        # slot 0 holds identity 0: the first member of an identity group
+        return {'identity': slot_idx,
                 'expires': T_PLACE + 86400.5 + slot_idx}
     return None
 
@@ -128,9 +130,10 @@ def prior_file(slot_idx, cfg):
     if prior == 'C':
         return current_doc(slot_idx, man, plc), T_PLACE
     if prior == 'O':
-        return previous_doc(slot_idx), T_PLACE - 1.0
+        # older / newer by less than a second, inside the same whole second
+        return previous_doc(slot_idx), T_PLACE - 0.4
     if prior == 'N':
-        return previous_doc(slot_idx), T_PLACE + 1.0
+        return previous_doc(slot_idx), T_PLACE + 0.2
     raise HarnessError(prior)
 
 
@@ -707,6 +710,17 @@ def check_synced(case, files, written, where, out, stats):
             out.append(_v('placed-instance-missing-from-cache',
                           'eventmgr.EventMgr._cache',
                           {'where': where, 'name': name, 'slot': list(cfg)}))
+        if (case.get('check') or where != 'after sync') and cfg[0] == 'O' \
+                and cfg[1] and cfg[2] and cfg[3] and name in files:
+            # a check_existing sync must refresh a file that is older than
+            # the placement it belongs to (the quantifier's "outdated files")
+            stats['outdated_files_checked'] += 1
+            kind, doc = _parse(files[name])
+            if kind != 'doc' or doc != merged(i, cfg[2], cfg[3]):
+                out.append(_v('outdated-file-not-refreshed',
+                              'eventmgr.EventMgr._cache',
+                              {'where': where, 'name': name,
+                               'slot': list(cfg)}))
         if name in written and name in files:
             stats['written_files_checked'] += 1
             want = merged(i, cfg[2], cfg[3])
